@@ -372,7 +372,7 @@ func EnsureFloat64(i interface{}) float64 {
 	if i32, ok := i.(float32); ok {
 		return float64(i32)
 	}
-	panic(fmt.Errorf("can't convert to float64: %v, type:%v", i, reflect.TypeOf(i)))
+	panic(fmt.Errorf("can't convert to float64 a value of type %v", reflect.TypeOf(i)))
 }
 
 //EnsureInt64 convert i to int64
@@ -383,7 +383,7 @@ func EnsureInt64(i interface{}) int64 {
 	if i32, ok := i.(int32); ok {
 		return int64(i32)
 	}
-	panic(fmt.Errorf("can't convert to int64: %v, type:%v", i, reflect.TypeOf(i)))
+	panic(fmt.Errorf("can't convert to int64 a value of type %v", reflect.TypeOf(i)))
 }
 
 //EnsureUint64 convert i to uint64
@@ -400,7 +400,7 @@ func EnsureUint64(i interface{}) uint64 {
 	if i32, ok := i.(uint32); ok {
 		return uint64(i32)
 	}
-	panic(fmt.Errorf("can't convert to uint64: %v, type:%v", i, reflect.TypeOf(i)))
+	panic(fmt.Errorf("can't convert to uint64 a value of type %v", reflect.TypeOf(i)))
 }
 
 //SetSlice set value into slice object
